@@ -14,10 +14,12 @@ VARIABLE c      \* <<group, sz, a, b, cin>>
 Vals(sz) == IF sz = 1 THEN {<<0, x>> : x \in B8} ELSE IF sz = 2 THEN {<<0, x>> : x \in B16} ELSE {<<h, l>> : h \in B32H, l \in B32H}
 Binary == {"add", "sub"}
 Unary == {"shl", "shr", "incdec", "neg"}
-Init == \E sz \in {1, 2, 4} :
-          \/ c \in {<<g, sz, a, b, ci>> : g \in Binary, a \in Vals(sz), b \in Vals(sz), ci \in {0, 1}}
-          \/ c \in {<<g, sz, a, <<0, 0>>, ci>> : g \in Unary, a \in Vals(sz), ci \in {0, 1}}
-Next == UNCHANGED c
+(* seeds <<"seed", group, sz, a>> expand into their cases as successors (so that all TLC workers share them) *)
+Init == c \in
+               UNION {{<<"seed", g, sz, a>> : g \in Binary \cup Unary, a \in Vals(sz)} : sz \in {1, 2, 4}}
+Next == /\ c[1] = "seed"
+        /\ IF c[2] \in Binary THEN c' \in {<<c[2], c[3], c[4], b, ci>> : b \in Vals(c[3]), ci \in {0, 1}}
+           ELSE c' \in {<<c[2], c[3], c[4], <<0, 0>>, ci>> : ci \in {0, 1}}
 Spec == Init /\ [][Next]_c
 
 W(sz) == 8 * sz
@@ -49,7 +51,8 @@ NegOK(sz, a) ==
   IN /\ AddV(sz, q.r, a, 0).r = VZero              \* x + (-x) = 0
      /\ q.c = B2N(~IsZeroV(a)) /\ q.v = B2N(Sg(sz, a) = 1 /\ Sg(sz, q.r) = 1)
 Inv ==
-  CASE c[1] = "add" -> AddOK(c[2], c[3], c[4], c[5])
+  CASE c[1] = "seed" -> TRUE
+    [] c[1] = "add" -> AddOK(c[2], c[3], c[4], c[5])
     [] c[1] = "sub" -> SubOK(c[2], c[3], c[4], c[5])
     [] c[1] = "shl" -> ShlOK(c[2], c[3], c[5])
     [] c[1] = "shr" -> ShrOK(c[2], c[3], c[5])
